@@ -118,12 +118,21 @@ class Ctx(object):
             yield it, res
 
     def close(self):
+        """Called once, immediately before os._exit.  Pool.terminate()/join() and the Pool
+        finalizer can dead-lock (a worker that is gone may hold the task queue's read lock), so
+        the pools are neither terminated nor released: re-population is switched off, the
+        workers - which hold no state worth saving - are killed, and the master leaves through
+        os._exit without running finalizers."""
         for p in self._pools.values():
             try:
-                p.terminate()
+                p._worker_handler._state = "TERMINATE"
             except Exception:
                 pass
-        self._pools = {}
+            for w in list(getattr(p, "_pool", [])):
+                try:
+                    w.kill()
+                except Exception:
+                    pass
 
     # ---- coverage ---------------------------------------------------------
     def add(self, **kw):
@@ -149,7 +158,6 @@ class Ctx(object):
 
     # ---- finishing --------------------------------------------------------
     def finish(self):
-        self.close()
         os.makedirs(EVIDENCE, exist_ok=True)
         unknown = []
         for v in self.raw_violations:
@@ -268,20 +276,32 @@ def main(argv=None):
         env["OPENBLAS_NUM_THREADS"] = "1"
         env["MKL_NUM_THREADS"] = "1"
         os.execve(build.PY, [build.PY, "-m", "btmc.check"] + (argv if argv is not None else sys.argv[1:]), env)
-    build.install_signal_handlers()
     import signal
+
+    holder = {}
+
+    def _leave(code):
+        sys.stdout.flush()
+        build._cleanup()
+        if holder.get("ctx") is not None:
+            holder["ctx"].close()
+        os._exit(code)
 
     def _watchdog(signum, frame):
         print("HARNESS-ERROR property=%s wall-clock watchdog fired" % a.prop.upper())
-        sys.stdout.flush()
-        build._cleanup()
-        os._exit(2)
+        _leave(2)
+
+    def _term(signum, frame):
+        _leave(128 + signum)
 
     signal.signal(signal.SIGALRM, _watchdog)
+    for sg in (signal.SIGTERM, signal.SIGINT, signal.SIGHUP):
+        signal.signal(sg, _term)
     signal.alarm(int(os.environ.get("BTMC_WATCHDOG_S", "1500" if a.tier == "quick" else "28000")))
     prop = a.prop.upper()
     jobs = a.jobs or min(16, os.cpu_count() or 4)
     ctx = Ctx(prop, a.tier, a.seed, jobs)
+    holder["ctx"] = ctx
     try:
         mod = importlib.import_module("btmc.props.%s" % prop.lower())
         mod.run(ctx)
@@ -290,11 +310,12 @@ def main(argv=None):
         raise
     except BaseException:
         traceback.print_exc()
-        ctx.close()
         print("HARNESS-ERROR property=%s" % prop)
         rc = 2
     sys.stdout.flush()
+    sys.stderr.flush()
     build._cleanup()
+    ctx.close()
     os._exit(rc)
 
 
